@@ -29,6 +29,7 @@ type Drift struct {
 	Step   int
 	Kind   string
 	Detail string
+	Sess   string // the session whose view differs (view kinds)
 }
 
 type Report struct {
@@ -73,6 +74,8 @@ type Options struct {
 	Sessions []string
 	Boxes    []string
 	Limits   *limits.IMAP
+	// ContinueAfterViewDrift: see Rig.Run
+	ContinueAfterViewDrift bool
 	// CheckDBEachStep compares the authoritative content (fresh EXAMINE) with the model after every
 	// state-changing step instead of only at the end (C03, C06, C17, C20).
 	CheckDBEachStep bool
@@ -109,6 +112,7 @@ type Rig struct {
 	// observed UID history for C04: box -> uid -> message
 	uidSeen     map[string]map[int]string
 	uidNextSeen map[string]int
+	blind       bool           // the view of a session has left the model: only the mailboxes are compared from here on
 	validity    map[string]int // UIDVALIDITY per mailbox as last established (start of the behaviour / last bump)
 }
 
@@ -430,7 +434,25 @@ func entriesView(es []Entry) string {
 	return "[" + b.String() + "]"
 }
 
+func (r *Rig) driftOf(sess string, idx int, kind, format string, a ...interface{}) *Drift {
+	d := r.drift(idx, kind, format, a...)
+	if d != nil {
+		d.Sess = sess
+	}
+	return d
+}
+
 func (r *Rig) drift(idx int, kind, format string, a ...interface{}) *Drift {
+	if r.blind {
+		switch kind {
+		case "content", "connection", "panic", "harness", "oracle":
+		default:
+			// the session's view has left the model earlier in this behaviour (see Run): only the authoritative content is
+			// still compared, the command sequence goes on
+			r.logf("      (not compared any more: %s)", fmt.Sprintf(format, a...))
+			return nil
+		}
+	}
 	return &Drift{Step: idx, Kind: kind, Detail: fmt.Sprintf(format, a...)}
 }
 
@@ -815,7 +837,7 @@ func (r *Rig) Exec(idx int, st *Step, prev *Step) *Drift {
 			continue
 		}
 		if !mirrorConforms(rs.mirror, st.Mirrors[name]) {
-			return r.drift(idx, "mirror", "after %s the client of %s has %s, specification predicts %s", st.Describe(), name, mirrorView(rs.mirror), specMirrorView(st.Mirrors[name]))
+			return r.driftOf(name, idx, "mirror", "after %s the client of %s has %s, specification predicts %s", st.Describe(), name, mirrorView(rs.mirror), specMirrorView(st.Mirrors[name]))
 		}
 	}
 	// update queues: what was enqueued is exactly what the specification says
@@ -836,7 +858,7 @@ func (r *Rig) Exec(idx int, st *Step, prev *Step) *Drift {
 		sel, _, msgs := stt.VerifSnapshot()
 		if !sel {
 			if st.Sel[name] != "none" {
-				return r.drift(idx, "snapshot", "session %s has nothing selected, specification predicts %s", name, st.Sel[name])
+				return r.driftOf(name, idx, "snapshot", "session %s has nothing selected, specification predicts %s", name, st.Sel[name])
 			}
 			continue
 		}
@@ -849,10 +871,10 @@ func (r *Rig) Exec(idx int, st *Step, prev *Step) *Drift {
 			want = append(want, fmt.Sprintf("%d(%s)", e.UID, strings.Join(normFlags(e.F), ",")))
 		}
 		if fmt.Sprint(got) != fmt.Sprint(want) {
-			return r.drift(idx, "snapshot", "after %s the snapshot of %s is %v, specification predicts %v", st.Describe(), name, got, want)
+			return r.driftOf(name, idx, "snapshot", "after %s the snapshot of %s is %v, specification predicts %v", st.Describe(), name, got, want)
 		}
 		if n := len(stt.VerifResponders()); n != st.ResLen[name] {
-			return r.drift(idx, "responders", "after %s session %s has %d queued responders (%v), specification predicts %d", st.Describe(), name, n, stt.VerifResponders(), st.ResLen[name])
+			return r.driftOf(name, idx, "responders", "after %s session %s has %d queued responders (%v), specification predicts %d", st.Describe(), name, n, stt.VerifResponders(), st.ResLen[name])
 		}
 	}
 	if len(r.pan.got) > 0 {
@@ -894,6 +916,11 @@ func (r *Rig) readIdle(s *rsess, st *Step, idx int) {
 		r.logf("      (idle) %s", l.String())
 		r.applyToMirror(s, st, idx, []wire.Line{l}, "Idle")
 	}
+}
+
+// untainted: the specification does not mark the session as hit by a known deviation at this step.
+func untainted(st *Step, sess string) bool {
+	return st == nil || len(st.Taint[sess]) == 0
 }
 
 // reconnect replaces the connection of a model session by a new gated one (the client logs in again).
@@ -1547,6 +1574,23 @@ func (r *Rig) Finish(last *Step, idx int) {
 			}
 			key := r.anyTaintKey(last, name, []string{"F1", "F14", "F15"}, "C02/diverged")
 			r.find("C02", key, fmt.Sprintf("at quiescence session %s shows %s of %s, a fresh session shows %s", name, strip(got), s.box, strip(want)), idx)
+			r.removalNotAnnounced(last, name, s.box, got, want, idx)
+		}
+	}
+}
+
+// removalNotAnnounced is C05's "every removal is announced by the next command that permits it" on real data: at quiescence,
+// after a NOOP (which permits EXPUNGE), the session still shows a message the mailbox no longer holds.
+func (r *Rig) removalNotAnnounced(ref *Step, name, box string, got, want []Entry, idx int) {
+	have := map[int]bool{}
+	for _, e := range want {
+		have[e.UID] = true
+	}
+	for _, e := range got {
+		if !have[e.UID] {
+			key := r.anyTaintKey(ref, name, []string{"F1", "F14", "F15"}, "C05/removal-not-announced")
+			r.find("C05", key, fmt.Sprintf("after every update was delivered and session %s sent NOOP it still shows UID %d of %s (it shows %s); the mailbox holds %s: the removal was never announced", name, e.UID, box, entriesView(got), entriesView(want)), idx)
+			return
 		}
 	}
 }
@@ -1621,6 +1665,7 @@ func (r *Rig) postDriftProbe(idx int, st *Step, prev *Step) {
 		if !same {
 			key := r.anyTaintKey(ref, name, []string{"F1", "F14", "F15"}, "C02/diverged")
 			r.find("C02", key, fmt.Sprintf("(after the server left the model at step %d) at quiescence session %s shows %s of %s, a fresh session shows %s", idx, name, entriesView(got), s.box, entriesView(want)), idx)
+			r.removalNotAnnounced(ref, name, s.box, got, want, idx)
 		}
 	}
 }
@@ -1631,6 +1676,16 @@ func (r *Rig) Run(t *Trace) *Report {
 	for i := range t.Steps {
 		st := &t.Steps[i]
 		if d := r.Exec(i+1, st, prev); d != nil {
+			if r.opt.ContinueAfterViewDrift && !r.blind && (d.Kind == "mirror" || d.Kind == "snapshot" || d.Kind == "responders") && untainted(st, d.Sess) && untainted(prev, d.Sess) {
+				// Reference-model properties (C03 ...): a session's view that differs from the model is not their business, what
+				// such a view does to the mailboxes is. The behaviour goes on; from here only the authoritative content of the
+				// mailboxes is compared with the model (after every state-changing step and at the end).
+				r.blind = true
+				r.rep.Drift = d
+				r.logf("      the view of a session has left the model (%s: %s); the behaviour goes on, the mailboxes are still compared", d.Kind, d.Detail)
+				prev = st
+				continue
+			}
 			r.rep.Drift = d
 			r.rep.Steps = i
 			switch d.Kind {
